@@ -129,6 +129,10 @@ def build_solver(spec):
                 s.ensure(DX.build(st["x"], vs))
             elif a == "add_key":
                 s.add_answer_key([vs[i] for i in (st.get("ids") or [st["id"]])])
+            elif a == "add_key_all":
+                s.add_answer_key(list(vs))
+            elif a not in ("config",):
+                raise RuntimeError("machinery: build_solver does not know the step " + a)
         return s
     h = spec["helper"]
     prim = spec["prim"]
